@@ -111,7 +111,7 @@ type c04Verdict struct {
 }
 
 // c04Predict is the acceptance predicate written from the property text, evaluated on the final request.
-func c04Predict(raw []byte, ct, ref, qdig string, blobs map[string][]byte) c04Verdict {
+func c04Predict(raw []byte, ct, ref, qdig string, blobs map[string][]byte, ackTypes map[string]map[string]bool) c04Verdict {
 	v := c04Verdict{ok: true}
 	no := func(why string) {
 		if v.ok {
@@ -203,6 +203,15 @@ func c04Predict(raw []byte, ct, ref, qdig string, blobs map[string][]byte) c04Ve
 		if _, ok := blobs[d]; !ok {
 			no(what + " not present in this repository: " + short(d))
 		}
+		// a child that is a manifest of this repository is "the child manifest it references" only under a media type it
+		// was acknowledged with (the index descriptor replaces the registry's own record of an untagged child)
+		if ts := ackTypes[d]; what == "child" && len(ts) > 0 {
+			if !ts[str(m, "mediaType")] {
+				no("child " + short(d) + " listed as " + str(m, "mediaType") + ", it was pushed as " + strings.Join(sortedKeys(ts), "/"))
+			} else if len(ts) > 1 {
+				v.dontCare = true // pushed under several types: which one the registry records is not specified
+			}
+		}
 	}
 	if isImageType(eff) {
 		present(obj["config"], "config")
@@ -281,6 +290,10 @@ func (e *env) c04Build(t *rapid.T, rn string) c04Req {
 			cmt := mtImage
 			if m := mr.mans[d]; m != nil {
 				cmt = m.mt
+				if rapid.IntRange(0, 4).Draw(t, "childOtherType") == 0 {
+					cmt = map[string]string{mtImage: mtDImage, mtDImage: mtImage, mtIndex: mtDIndex, mtDIndex: mtIndex}[cmt]
+					q.desc = append(q.desc, "childOtherType")
+				}
 			}
 			kids = append(kids, map[string]any{"mediaType": cmt, "digest": d, "size": sz})
 		}
@@ -394,6 +407,7 @@ func c04Property(t *rapid.T, st *Stats) {
 		nt := e.classes["refused-in-nonempty-repo"] && e.classes["accepted"]
 		st.Case(e.trace, nt, e.classList()...)
 	}()
+	ackTypes := map[string]map[string]map[string]bool{} // repository -> manifest digest -> media types it was acknowledged under
 	t.Repeat(e.actions(map[string]func(*rapid.T){
 		"pushBlob": func(t *rapid.T) {
 			rn := rapid.SampledFrom(c04Repos).Draw(t, "repo")
@@ -443,7 +457,7 @@ func c04Property(t *rapid.T, st *Stats) {
 					q.desc = append(q.desc, "bodyAsBlob")
 				}
 			}
-			v := c04Predict(q.raw, q.ct, q.ref, q.qdig, mr.blobs)
+			v := c04Predict(q.raw, q.ct, q.ref, q.qdig, mr.blobs, ackTypes[rn])
 			e.universe[dig("sha256", q.raw)] = true
 			if c04DigRE.MatchString(q.ref) {
 				e.universe[q.ref] = true
@@ -507,6 +521,13 @@ func c04Property(t *rapid.T, st *Stats) {
 					p.tag = q.ref
 				}
 				e.acceptManifest(p)
+				if ackTypes[rn] == nil {
+					ackTypes[rn] = map[string]map[string]bool{}
+				}
+				if ackTypes[rn][p.digest] == nil {
+					ackTypes[rn][p.digest] = map[string]bool{}
+				}
+				ackTypes[rn][p.digest][mm.mt] = true
 				return
 			}
 			// not acknowledged
